@@ -38,13 +38,19 @@ CAN = {
     "stale": "zs" * 8 + "5ec0dest" * 6,        # non-hex key material left in the store by an earlier version
     "ok3": "d4" * 8 + "5ec0de05" * 6,
     "non200": "e5" * 8 + "5ec0de06" * 6,       # a key document delivered with a status other than 200
+    "badutf8": "f6" * 8 + "5ec0de07" * 6,      # a key document with a byte that is not UTF-8 next to the key
 }
 G += ["c12c12c1-0001-4000-8000-00000000000%d" % i for i in range(6, 9)]
-G += ["c12c12c1-0001-4000-8000-0000000000a%d" % i for i in range(1, 3)]
+G += ["c12c12c1-0001-4000-8000-0000000000a%d" % i for i in range(1, 4)]
 
 
 def renderings(c):
     r = {c.encode(), c.upper().encode(), c.lower().encode()}
+    # the text of the key as a list of byte values (a Debug-printed buffer, a hex dump of the document)
+    for sep in (", ", ",", " "):
+        r.add(sep.join(str(b) for b in c.encode()).encode())
+    r |= {c.encode().hex().encode(), c.encode().hex().upper().encode(), " ".join("%02x" % b for b in c.encode()).encode(),
+          base64.b64encode(c.encode())}
     try:
         raw = bytes.fromhex(c)
         r |= {raw, base64.b64encode(raw), base64.urlsafe_b64encode(raw)}
@@ -233,6 +239,12 @@ def run(c):
               plan("GET /secure-channel/status", 200, status_doc(G[9])), {"op": "sleep", "ms": 400},
               plan("POST /secure-channel/key", 500, key_doc(G[9], CAN["non200"])), {"op": "sleep", "ms": 300},
               {"op": "key_state", "tag": "non200"}] + traffic("t8") + [{"op": "mark", "tag": "phase:non200"}]
+    # the key request is answered 200 with a key document in which one byte is not UTF-8 (a stray 0xFF inside `issued`)
+    bad = json.dumps(key_doc(G[10], CAN["badutf8"])).encode().replace(b"2021-05-05T", b"2021-05-05\xffT")
+    steps += [{"op": "set_plan", "id": "POST /secure-channel/key", "resp": {"status": 200, "headers": [["content-type", "application/json"]],
+                                                                             "body": {"hex": bad.hex()}}},
+              plan("GET /secure-channel/status", 200, status_doc(G[10])), {"op": "sleep", "ms": 500},
+              {"op": "key_state", "tag": "badutf8"}] + traffic("t9") + [{"op": "mark", "tag": "phase:badutf8"}]
     # a key file left by an earlier run/version holds key material that is not hex; the host names that key
     keys_dir = os.path.join(d0, "keys")
     steps += [{"op": "write_file", "path": os.path.join(keys_dir, G[5] + ".key"), "text": json.dumps(key_doc(G[5], CAN["stale"]))},
